@@ -139,7 +139,8 @@ Fixpoint u8_str (l : list N) : list item :=
   match l with
   | [] => []
   | c :: r =>
-      if negb (is_high c) then u8_code c ++ u8_str r
+      if is_low c then [IThrow err_surrogate]
+      else if negb (is_high c) then u8_code c ++ u8_str r
       else match r with
            | [] => [IThrow err_surrogate]
            | lo :: r' =>
@@ -150,16 +151,39 @@ Fixpoint u8_str (l : list N) : list item :=
 
 (* write(chars, start, length): one character; the flag says that chars[start+1] was consumed too *)
 Definition u8_at (c : N) (r : list N) : list item * bool :=
-  if negb (is_high c) then (u8_code c, false)
+  if is_low c then ([IThrow err_surrogate], false)
+  else if negb (is_high c) then (u8_code c, false)
   else match r with
        | [] => ([IThrow err_surrogate], false)
        | lo :: _ => if is_low lo then (u8_code (decode_pair c lo), true) else ([IThrow err_surrogate], false)
        end.
 
+(* for (i = 0; i < n; ++i) i = write(data, i, n);   with a one-character write [one] *)
+Fixpoint at_loop (one : N -> list N -> list item * bool) (l : list N) : list item :=
+  match l with
+  | [] => []
+  | c :: r =>
+      let '(its, skip) := one c r in
+      its ++ (if skip then match r with [] => [] | _ :: r' => at_loop one r' end else at_loop one r)
+  end.
+
 (* ---- XalanUTF16Writer ------------------------------------------------------------------------- *)
 Definition u16_unit (c : N) : list item := [IPut unit_guard_utf16 [c] 1].
 Definition u16_block (xs : list N) : list item :=
   if kbuf_utf16 <? len xs then [IDirect xs] else [IPut (len xs) xs (len xs)].
+
+(* write(chars, start, length): a single unit or a surrogate pair; unpaired surrogates are errors *)
+Definition u16_at (c : N) (r : list N) : list item * bool :=
+  if is_high c then
+    match r with
+    | [] => ([IThrow err_surrogate], false)
+    | lo :: _ => if is_low lo then (u16_unit c ++ u16_unit lo, true) else ([IThrow err_surrogate], false)
+    end
+  else if is_low c then ([IThrow err_surrogate], false)
+  else (u16_unit c, false).
+
+(* writePIChars / writeCommentChars *)
+Definition u16_chars (l : list N) : list item := at_loop u16_at l.
 
 (* ---- XalanOtherEncodingWriter (rep = m_predicate = canTranscodeTo) ----------------------------- *)
 Fixpoint digits_rev (fuel : nat) (n : N) : list N :=
@@ -202,19 +226,14 @@ Section Other.
             let v := decode_pair c lo in ((if rep v then o_code v else fail v), true)
           else ([IThrow err_surrogate], false)
       end
+    else if is_low c then ([IThrow err_surrogate], false)
     else ((if rep c then o_code c else fail c), false).
 
   Definition o_at := o_at_gen o_charref.
   Definition o_at_name := o_at_gen (fun _ => [IThrow err_unrepresentable]).
 
-  (* writeNameChar *)
-  Fixpoint o_name (l : list N) : list item :=
-    match l with
-    | [] => []
-    | c :: r =>
-        let '(its, skip) := o_at_name c r in
-        its ++ (if skip then match r with [] => [] | _ :: r' => o_name r' end else o_name r)
-    end.
+  (* writeNameChar, writePIChars, writeCommentChars *)
+  Definition o_name (l : list N) : list item := at_loop o_at_name l.
 
   (* writeCDATAChar: items, chars[start+1] consumed, new outsideCDATA *)
   Definition o_cdata_char (open close : list N) (c : N) (r : list N) (outside : bool)
@@ -225,6 +244,7 @@ Section Other.
         | [] => None
         | lo :: _ => if is_low lo then Some (decode_pair c lo, true) else None
         end
+      else if is_low c then None
       else Some (c, false) in
     match dec with
     | None => ([IThrow err_surrogate], false, outside)
